@@ -85,6 +85,10 @@ func spell(value string, prs diags.PositionRanges, lines []string) string {
 			if ch != ' ' && ch != '\n' {
 				return fmt.Sprintf("value[%d]=%q mapped to the end of line %d", i, ch, p.line)
 			}
+		case (ch == ' ' || ch == '\n') && strings.TrimSpace(l) == "":
+			// a line break of the value mapped past the end of a blank line that is shorter than the
+			// indentation of the document it sits in (embedded documents: offsets are added blindly)
+			return fmt.Sprintf("line break value[%d] mapped to column %d of the blank line %d (length %d)", i, p.col, p.line, len(l))
 		default:
 			return fmt.Sprintf("position %d column %d is outside line %d (length %d)", i, p.col, p.line, len(l))
 		}
@@ -152,6 +156,8 @@ func styleOf(prs diags.PositionRanges, lines []string) string {
 	return s
 }
 
+var reBlockBlank = regexp.MustCompile(`: \|[-+0-9]*[ \t]*\n[ \t]*\n`)
+
 var reAnchor = regexp.MustCompile(`(: +|- +)[&*][A-Za-z_]`)
 
 // rootCause maps a violating file to a root-cause class where one is recognisable from the file itself;
@@ -160,7 +166,8 @@ func rootCause(content string, lines []string, prs diags.PositionRanges, sig str
 	if reAnchor.MatchString(content) || strings.Contains(content, "<<:") {
 		return "anchor-or-alias"
 	}
-	if strings.Contains(content, ": |") && strings.Contains(content, " groups:") {
+	if strings.Contains(content, ": |") && strings.Contains(content, " groups:") && (reBlockBlank.MatchString(content) || strings.Contains(content, "\n---")) {
+		// the known class: an embedded document that starts with a blank line or sits in a later document
 		return "nested-yaml-document"
 	}
 	if strings.Contains(sig, "style=block") {
@@ -187,7 +194,9 @@ func checkFile(content string, strict bool, cs *explore.Case, input map[string]a
 				prs = p
 			}
 		}
-		if rc := rootCause(content, lines, prs, v.Sig); rc != "" {
+		if strings.Contains(v.What, "mapped to column") && strings.Contains(v.What, "of the blank line") && strings.Contains(content, ": |") {
+			cs.Violate("embedded-blank-line-break-column", v.What+" ("+v.Sig+")", v.Detail)
+		} else if rc := rootCause(content, lines, prs, v.Sig); rc != "" {
 			cs.Violate(rc, v.What+" ("+v.Sig+")", v.Detail)
 		} else {
 			cs.Viol = append(cs.Viol, v)
@@ -324,6 +333,47 @@ func styled(c *explore.Chooser) *explore.Case {
 	return cs
 }
 
+// embedded: a generated rule document inside one or two levels of YAML-in-YAML block scalars (a ConfigMap, a
+// Helm values file holding a manifest), relaxed mode: positions must still point into the file.
+func embedded(c *explore.Chooser) *explore.Case {
+	d := rulegen.Styled(c)
+	if !d.Valid || !strings.HasPrefix(d.Text, "groups:") || strings.HasPrefix(d.Text, "groups:\n\n") {
+		return &explore.Case{Skip: true}
+	}
+	depth := 1 + c.Free(2, "embed-depth")
+	indent := []int{2, 4}[c.Free(2, "embed-indent")]
+	before := c.Free(3, "siblings-before")
+	text := strings.TrimRight(d.Text, "\n") + "\n"
+	for lvl := 0; lvl < depth; lvl++ {
+		var sb strings.Builder
+		if lvl == depth-1 {
+			sb.WriteString("kind: ConfigMap\n")
+		}
+		for i := 0; i < before; i++ {
+			fmt.Fprintf(&sb, "note%d: level %d\n", i, lvl)
+		}
+		sb.WriteString("data:\n")
+		pad := strings.Repeat(" ", indent)
+		fmt.Fprintf(&sb, "%srules.yml: |\n", pad)
+		for _, l := range strings.Split(strings.TrimSuffix(text, "\n"), "\n") {
+			if l == "" {
+				sb.WriteString("\n")
+			} else {
+				sb.WriteString(pad + pad + l + "\n")
+			}
+		}
+		text = sb.String()
+	}
+	input := map[string]any{"choices": d.Choices, "file": text, "strict": false, "embed_depth": depth}
+	cs := &explore.Case{Input: input, Key: text}
+	checkFile(text, false, cs, input)
+	if cs.Stats["rules"] == 0 {
+		cs.Count("generated_but_no_rule_parsed", 1)
+	}
+	cs.Outcome = fmt.Sprintf("embedded depth=%d rules=%d viol=%d", depth, min(cs.Stats["rules"], 1), len(cs.Viol))
+	return cs
+}
+
 func corpus(c *explore.Chooser) *explore.Case {
 	si := c.Free(len(seeds), "seed")
 	op := c.Free(6, "transform")
@@ -375,6 +425,12 @@ func main() {
 				return 2
 			}},
 			{Name: "corpus", Body: corpus, Setup: setup, Bound: func(string) int { return -1 }},
+			{Name: "embedded", Body: embedded, Setup: setup, Bound: func(t string) int {
+				if t == "thorough" {
+					return 2
+				}
+				return 1
+			}},
 		},
 		BudgetS: func(t string) int {
 			if t == "thorough" {
